@@ -8,7 +8,7 @@ Both `is_connected` and the Dijkstra of `routines/isomap.hpp` read `k := g[0].si
 
 Undefined behaviour is explicit: `oob` = an index outside a `std::vector` (a list shorter than `k`, a
 neighbour index ≥ N, `neighbors[0]` of an empty graph); `fuelOut` = the fuel of the modelled loop ran out
-(never happens with the fuel the drivers pass: `dfs_fuel_suffices`, `findNeighbors_fuel_suffices`).
+(never happens with the fuel the model passes: `dfs_fuel_suffices`, `findNeighbors_fuel_suffices`).
 -/
 namespace TapkeeVerif.Connected
 
@@ -37,25 +37,22 @@ def StronglyConnected (g : Graph) (N : Nat) : Prop := ∀ u, u < N → ∀ v, v 
 
 /-! ### `is_connected` -/
 
-/-- the `for (j = 0; j < k; ++j)` loop: push every not yet visited neighbour (`none` = out of bounds) -/
-def pushNbrs (N : Nat) (visited : List Nat) (nb : List Nat) : Nat → Nat → List Nat → Option (List Nat)
-  | 0, _, stack => some stack
-  | cnt + 1, j, stack =>
-    match nb[j]? with
-    | none => none
-    | some w =>
-      if w < N then
-        pushNbrs N visited nb cnt (j + 1) (if w ∈ visited then stack else w :: stack)
-      else none
+/-- the `for (j = 0; j < current_neighbors.size(); ++j)` loop of `reaches_all_from_first`:
+    push every not yet visited neighbour (`none` = a neighbour index outside `visited`) -/
+def pushNbrs (N : Nat) (visited : List Nat) : List Nat → List Nat → Option (List Nat)
+  | [], stack => some stack
+  | w :: rest, stack =>
+    if w < N then pushNbrs N visited rest (if w ∈ visited then stack else w :: stack)
+    else none
 
-/-- the `while (!stack.empty())` loop; `visited` lists the marked vertices (`nvisited = visited.length`),
-    head of `stack` = `stack.top()` -/
-def dfs (N k : Nat) (g : Graph) : Nat → List Nat → List Nat → Res Bool
+/-- the `while (!stack.empty())` loop of `reaches_all_from_first`; `visited` lists the marked vertices
+    (`nvisited = visited.length`), head of `stack` = `stack.top()` -/
+def dfs (N : Nat) (g : Graph) : Nat → List Nat → List Nat → Res Bool
   | 0, _, _ => .fuelOut
   | _ + 1, visited, [] => .ok (visited.length == N)
   | fuel + 1, visited, cur :: st =>
     if cur < N then
-      if cur ∈ visited then dfs N k g fuel visited st
+      if cur ∈ visited then dfs N g fuel visited st
       else
         let visited' := cur :: visited
         if visited'.length = N then .ok true
@@ -63,19 +60,42 @@ def dfs (N k : Nat) (g : Graph) : Nat → List Nat → List Nat → Res Bool
           match g[cur]? with
           | none => .oob
           | some nb =>
-            match pushNbrs N visited' nb k 0 st with
+            match pushNbrs N visited' nb st with
             | none => .oob
-            | some st' => dfs N k g fuel visited' st'
+            | some st' => dfs N g fuel visited' st'
     else .oob
 
-/-- fuel that always suffices: every iteration pops one entry, at most `1 + N*k` entries are ever pushed -/
-def dfsFuel (N k : Nat) : Nat := N * k + 2
+/-- fuel that always suffices: every iteration pops one entry, at most `1 + (number of edges)` entries are ever pushed -/
+def dfsFuel (g : Graph) : Nat := (g.map List.length).sum + 2
 
-/-- `is_connected(begin, end, neighbors)` with `N = end - begin` -/
+/-- `reaches_all_from_first(N, edges)` -/
+def reachesAll (N : Nat) (g : Graph) : Res Bool := dfs N g (dfsFuel g) [] [0]
+
+/-- the construction of `forward` in `is_connected`: the first `k` entries of the lists of samples `0..N-1`
+    (`none` = `neighbors[i][j]` outside the vectors, or a neighbour index outside `backward`) -/
+def forwardOf (N k : Nat) (g : Graph) : Option Graph :=
+  if g.length < N then none
+  else if (g.take N).all (fun l => k ≤ l.length && (l.take k).all (· < N)) then some ((g.take N).map (·.take k))
+  else none
+
+/-- `backward[neighbor].push_back(i)` for `i = 0..N-1`, `j = 0..k-1`: list `v` of the result enumerates, in
+    increasing order of `u` (with multiplicity), the `u` that have `v` among their forward neighbours -/
+def backwardOf (N : Nat) (fwd : Graph) : Graph :=
+  (List.range N).map fun v =>
+    (fwd.zipIdx.map fun (l, u) => List.replicate (l.count v) u).flatten
+
+/-- `is_connected(begin, end, neighbors)` with `N = end - begin`: every vertex is reached from sample 0 along
+    the edges and along the reversed edges -/
 def isConnected (N : Nat) (g : Graph) : Res Bool :=
   match g with
   | [] => .oob
-  | nb0 :: _ => dfs N nb0.length g (dfsFuel N nb0.length) [] [0]
+  | nb0 :: _ =>
+    match forwardOf N nb0.length g with
+    | none => .oob
+    | some fwd =>
+      match reachesAll N fwd with
+      | .ok true => reachesAll N (backwardOf N fwd)
+      | r => r
 
 /-! ### `find_neighbors` (the recursion; the search itself is a parameter) -/
 
